@@ -37,6 +37,11 @@ func paintSeverity(sb *strings.Builder, text string) bool {
 
 func paintRemote(sb *strings.Builder, line string) {
 	splitted := strings.SplitN(line, protocol.FieldDelimiter, 6)
+	if len(splitted) < 6 {
+		// Not a complete remote record (e.g. log content starting with REMOTE).
+		paintDefault(sb, line)
+		return
+	}
 
 	color.PaintWithAttr(sb, splitted[0],
 		config.Client.TermColors.Remote.RemoteFg,
@@ -105,6 +110,10 @@ func paintRemote(sb *strings.Builder, line string) {
 
 func paintClient(sb *strings.Builder, line string) {
 	splitted := strings.SplitN(line, protocol.FieldDelimiter, 3)
+	if len(splitted) < 3 {
+		paintDefault(sb, line)
+		return
+	}
 
 	color.PaintWithAttr(sb, splitted[0],
 		config.Client.TermColors.Client.ClientFg,
@@ -138,6 +147,10 @@ func paintClient(sb *strings.Builder, line string) {
 
 func paintServer(sb *strings.Builder, line string) {
 	splitted := strings.SplitN(line, protocol.FieldDelimiter, 3)
+	if len(splitted) < 3 {
+		paintDefault(sb, line)
+		return
+	}
 
 	color.PaintWithAttr(sb, splitted[0],
 		config.Client.TermColors.Server.ServerFg,
@@ -167,6 +180,13 @@ func paintServer(sb *strings.Builder, line string) {
 		config.Client.TermColors.Server.TextFg,
 		config.Client.TermColors.Server.TextBg,
 		config.Client.TermColors.Server.TextAttr)
+}
+
+func paintDefault(sb *strings.Builder, line string) {
+	color.PaintWithAttr(sb, line,
+		color.FgDefault,
+		color.BgDefault,
+		color.AttrNone)
 }
 
 // Colorfy a given line based on the line's content.
